@@ -13,9 +13,9 @@ from vlib.cosched import kit as K
 from vlib.cosched.sched import Abort
 
 ASYNCIO_POPULATIONS = ["none", "sleeper", "sleeper+sync", "spinner+sync", "sleeper+spinner",
-                       "child-of-trio", "late", "stubborn"]
+                       "child-of-trio", "late", "stubborn", "private-wait"]
 TRIO_POPULATIONS = ["none", "sleeper", "sleeper+sync", "shield0.5", "shield5", "spinner+sync",
-                    "sleeper+spinner", "child-of-asyncio", "late"]
+                    "sleeper+spinner", "child-of-asyncio", "late", "private-wait"]
 TRIGGERS = ["fail:asyncio", "fail:trio", "fail:threading", "sigint", "shutdown", "stop",
             "ki:asyncio", "ki:trio", "ki:threading"]
 
@@ -36,6 +36,9 @@ def population(flavour, kind):
     if kind == "sleeper+spinner":
         return [mk("sleeper", [("forever", 0.7)], ("sync", 1)),
                 mk("spinner", [("sleep", 0.85), ("spin", None)])], []
+    if kind == "private-wait":
+        # suspended on an object only it refers to, while the garbage collector runs
+        return [mk("waiter", [("wait-private",)], ("sync", 1))], []
     if kind == "stubborn":
         # finishes its current item before it gives in: needs a second cancellation
         return [mk("stubborn", [("stubborn", 1, 0.3)], ("sync", 1))], []
@@ -103,6 +106,16 @@ class Scenario:
 
         if late or trigger in ("shutdown", "stop"):
             env.spawn(outside, "driver")
+
+        def collector():
+            import gc
+
+            runtime.running.wait()
+            env.sleep(0.5)
+            env.log("gc", collected=gc.collect() >= 0)
+
+        if "private-wait" in (params["asyncio"], params["trio"]):
+            env.spawn(collector, "collector")
         if trigger == "sigint":
             env.sigint(lambda s: runtime.running.peek() and s.now > 0.0, deadline=1.0,
                        cost=params.get("sigint_cost", 1))
@@ -189,6 +202,9 @@ def scenario_params(tier):
         if trigger.startswith("ki:") and tier == "quick" and not (
                 pop_a in ("none", "sleeper+sync") and pop_t in ("sleeper+sync", "shield0.5",
                                                                 "shield5")):
+            continue
+        if "private-wait" in (pop_a, pop_t) and not (
+                {pop_a, pop_t} <= {"private-wait", "none", "sleeper"}):
             continue
         if trigger == "stop" and ("late" in (pop_a, pop_t)):
             # a bare MetaRunner has no documented behaviour for adopt racing stop()
